@@ -129,6 +129,11 @@ pub enum Reg {
     Ctor { ty: usize, variant: u8 },
     Comp { idx: usize },
     Nest { prefix: Option<String>, domain: Option<String>, bp: Vec<Reg> },
+    /// registration of the generic constructor of wrapper `kind` (`concrete_for: None`), or of a
+    /// *concrete* constructor `fn gc(inner: &T<t>) -> G<kind><T<t>>` for one instantiation. When a
+    /// blueprint holds no `Gen` registration at all for a kind in use, the generic constructor is
+    /// registered in the root blueprint.
+    Gen { kind: u8, concrete_for: Option<usize> },
 }
 
 #[derive(Clone, Debug, PartialEq, Serialize, Deserialize, Default)]
